@@ -97,14 +97,23 @@ fn w_prop(w: u8) -> Option<PropertyValue> {
         0 => Some(PropertyValue::Int(0)),
         1 => Some(PropertyValue::Int(1)),
         2 => None, // property absent: documented default weight 1.0
-        _ => Some(PropertyValue::Float(5.0)),
+        3 => Some(PropertyValue::Float(5.0)),
+        k => Some(PropertyValue::Int(i64::from(k) - 10)), // 10+i: integer weight i (part M: distinct weights 1..m)
     }
 }
 fn w_num(w: u8) -> f64 {
-    [0.0, 1.0, 1.0, 5.0][w as usize]
+    if w >= 10 {
+        f64::from(w - 10)
+    } else {
+        [0.0, 1.0, 1.0, 5.0][w as usize]
+    }
 }
-fn w_show(w: u8) -> &'static str {
-    ["w=0", "w=1", "w absent(=1)", "w=5.0"][w as usize]
+fn w_show(w: u8) -> String {
+    if w >= 10 {
+        format!("w={}", w - 10)
+    } else {
+        ["w=0", "w=1", "w absent(=1)", "w=5.0"][w as usize].to_string()
+    }
 }
 impl EL {
     fn show(&self) -> String {
@@ -1080,7 +1089,6 @@ fn norm(a: u64, b: u64) -> (u64, u64) {
 
 fn check_s(ctx: &mut Ctx, p: &Params, acc: &mut Acc, gv: &mut GV) {
     let n = ctx.n;
-    let w = weights(ctx);
     for &ty in &p.type_filters {
         let tok = type_ok(ctx, ty);
         let tys = ty.map(ty_str);
@@ -1394,7 +1402,13 @@ fn check_s(ctx: &mut Ctx, p: &Params, acc: &mut Acc, gv: &mut GV) {
             }
         }
     }
-    // ---- minimum spanning tree / forest (all edges, direction ignored)
+    check_mst(ctx, acc, gv);
+}
+
+// ---- minimum spanning tree / forest (all edges, direction ignored)
+fn check_mst(ctx: &mut Ctx, acc: &mut Acc, gv: &mut GV) {
+    let n = ctx.n;
+    let w = weights(ctx);
     {
         let all = vec![true; ctx.labels.len()];
         let both = arcs(&ctx.labels, Mode::Both, &all);
@@ -1472,6 +1486,28 @@ fn check_s(ctx: &mut Ctx, p: &Params, acc: &mut Acc, gv: &mut GV) {
         if n - ncomp >= 2 && real.len() > n - ncomp {
             acc.inc("nontrivial", 1);
         }
+        // distinct weights: the minimum spanning forest is unique, so its edge set is known (reference Kruskal)
+        let distinct = real.iter().all(|&a| real.iter().all(|&b| a == b || w[a] != w[b]));
+        let unique_set: Option<BTreeSet<u64>> = if distinct && !selftest() {
+            let mut order = real.clone();
+            order.sort_by(|a, b| w[*a].partial_cmp(&w[*b]).unwrap());
+            let mut label: Vec<usize> = (0..n).collect();
+            let mut set = BTreeSet::new();
+            for e in order {
+                let (a, b) = (label[ctx.labels[e].u as usize], label[ctx.labels[e].v as usize]);
+                if a != b {
+                    for x in label.iter_mut() {
+                        if *x == b {
+                            *x = a;
+                        }
+                    }
+                    set.insert(ctx.eids[e]);
+                }
+            }
+            Some(set)
+        } else {
+            None
+        };
         let mut cfgs = vec![("forest", MstConfig::default())];
         if ncomp == 1 {
             cfgs.push(("tree(compute_forest=false)", MstConfig::default().compute_forest(false)));
@@ -1515,6 +1551,11 @@ fn check_s(ctx: &mut Ctx, p: &Params, acc: &mut Acc, gv: &mut GV) {
                         gv.add("c18:mst:tree-count", || (format!("minimum_spanning_tree({name}).tree_count = {} but the graph has {ncomp} connected component(s)", r.tree_count), q));
                     } else if (sum - r.total_weight).abs() > 1e-9 || (sum - best).abs() > 1e-9 {
                         gv.add("c18:mst:weight-not-minimal", || (format!("minimum_spanning_tree({name}) total_weight {} (edges sum {sum}); minimum spanning forest weight is {best}", r.total_weight), q));
+                    } else if let Some(exp) = &unique_set {
+                        let got: BTreeSet<u64> = r.edges.iter().map(|e| e.edge_id).collect();
+                        if got != *exp {
+                            gv.add("c18:mst:edge-set-differs", || (format!("minimum_spanning_tree({name}) edges {got:?} but with distinct weights the unique minimum spanning forest is {exp:?} (engine edge ids)"), q));
+                        }
                     }
                 }
                 Err(e) => gv.add("c18:mst:unexpected-error", || (format!("{e:?}"), q)),
@@ -1551,6 +1592,8 @@ enum Part {
     U,
     W,
     S,
+    /// spanning tree / forest only (part S on larger graphs with distinct weights)
+    M,
 }
 impl Part {
     fn name(self) -> &'static str {
@@ -1558,6 +1601,7 @@ impl Part {
             Part::U => "U",
             Part::W => "W",
             Part::S => "S",
+            Part::M => "M",
         }
     }
 }
@@ -1577,6 +1621,7 @@ fn check_graph(part: Part, ctx: &mut Ctx, p: &Params, acc: &mut Acc) {
         Part::U => check_u(ctx, p, acc, &mut gv),
         Part::W => check_w(ctx, p, acc, &mut gv),
         Part::S => check_s(ctx, p, acc, &mut gv),
+        Part::M => check_mst(ctx, acc, &mut gv),
     }
     acc.inc("graphs", 1);
     if ctx.labels.iter().any(|l| l.u == l.v) {
@@ -1984,6 +2029,99 @@ fn run_simple_graphs(name: &str, n: usize, kinds: &[(bool, bool, u8, u8)], types
     total
 }
 
+/// Part M: every sequence of <= max_m undirected edges over distinct node pairs of n nodes, the i-th edge
+/// weighing i (= every edge set x every assignment of the distinct weights 1..m, i.e. every order in which
+/// Kruskal can meet the edges), each edge in both storage orientations (from,to)/(to,from); node names are
+/// canonical by first appearance (an edge's `from` before its `to`), and the whole family is run under two
+/// name -> node-id maps (ascending, descending) so ids are not tied to the order of appearance.
+fn run_mst_family(n: usize, max_m: usize, descending: bool, unit_depth: usize) -> Acc {
+    fn extend(n: usize, k: usize, used: &[(u8, u8)]) -> Vec<(u8, u8, usize)> {
+        // (from, to, nodes in use afterwards)
+        let mut out = vec![];
+        for u in 0..(k + 1).min(n) {
+            let ku = if u == k { k + 1 } else { k };
+            for v in 0..(ku + 1).min(n) {
+                if v == u {
+                    continue;
+                }
+                let kv = if v == ku { ku + 1 } else { ku };
+                let pr = (u.min(v) as u8, u.max(v) as u8);
+                if !used.contains(&pr) {
+                    out.push((u as u8, v as u8, kv));
+                }
+            }
+        }
+        out
+    }
+    fn prefixes(n: usize, depth: usize, k: usize, cur: &mut Vec<(u8, u8)>, used: &mut Vec<(u8, u8)>, out: &mut Vec<(Vec<(u8, u8)>, usize, bool)>) {
+        // (prefix, nodes in use, descend below it?)
+        out.push((cur.clone(), k, cur.len() == depth));
+        if cur.len() == depth {
+            return;
+        }
+        for (u, v, k2) in extend(n, k, used) {
+            cur.push((u, v));
+            used.push((u.min(v), u.max(v)));
+            prefixes(n, depth, k2, cur, used, out);
+            cur.pop();
+            used.pop();
+        }
+    }
+    fn rec(n: usize, max_m: usize, k: usize, used: &mut Vec<(u8, u8)>, ctx: &mut Ctx, map: &dyn Fn(u8) -> u8, acc: &mut Acc) {
+        check_graph(Part::M, ctx, &params(Part::M, n, false, false, false), acc);
+        if ctx.labels.len() >= max_m {
+            return;
+        }
+        for (u, v, k2) in extend(n, k, used) {
+            let wgt = 10 + ctx.labels.len() as u8 + 1;
+            ctx.push(EL { u: map(u), v: map(v), ty: 0, w: wgt, dir: false });
+            used.push((u.min(v), u.max(v)));
+            rec(n, max_m, k2, used, ctx, map, acc);
+            used.pop();
+            ctx.pop();
+        }
+    }
+    let depth = unit_depth.min(max_m);
+    let mut units = vec![];
+    prefixes(n, depth, 0, &mut vec![], &mut vec![], &mut units);
+    let results: Vec<Acc> = units
+        .par_iter()
+        .map(|(pre, k, descend)| {
+            std::thread::scope(|s| {
+                std::thread::Builder::new()
+                    .stack_size(32 << 20)
+                    .spawn_scoped(s, || {
+                        let map = |x: u8| if descending { n as u8 - 1 - x } else { x };
+                        let mut acc = Acc::default();
+                        let mut ctx = Ctx::new(n);
+                        let mut used = vec![];
+                        for (i, (u, v)) in pre.iter().enumerate() {
+                            ctx.push(EL { u: map(*u), v: map(*v), ty: 0, w: 10 + i as u8 + 1, dir: false });
+                            used.push((*u.min(v), *u.max(v)));
+                        }
+                        if *descend {
+                            rec(n, max_m, *k, &mut used, &mut ctx, &map, &mut acc);
+                        } else {
+                            check_graph(Part::M, &mut ctx, &params(Part::M, n, false, false, false), &mut acc);
+                        }
+                        acc.inc("engine_calls", ctx.calls);
+                        acc
+                    })
+                    .expect("spawn")
+                    .join()
+                    .expect("M unit thread panicked")
+            })
+        })
+        .collect();
+    let mut total = Acc::default();
+    for r in results {
+        total.merge(r);
+    }
+    let mid = &units[units.len() / 2].0;
+    total.samples.push(json!({"space": "M", "nodes": n, "a_graph_prefix_checked": mid.iter().enumerate().map(|(i, (u, v))| format!("n{u}--n{v} w={}", i + 1)).collect::<Vec<_>>()}));
+    total
+}
+
 fn replay_graph(rep: &mut Report, v: &Value, thorough: bool) {
     let r = &v["replay"];
     let n = r["n"].as_u64().expect("replay n") as usize;
@@ -1999,6 +2137,7 @@ fn replay_graph(rep: &mut Report, v: &Value, thorough: bool) {
         let pt = match part {
             "W" => Part::W,
             "S" => Part::S,
+            "M" => Part::M,
             _ => Part::U,
         };
         // the engine's hash iteration order depends on thread-local seeds: try the same offsets as the confirmation step
@@ -2044,6 +2183,8 @@ fn main() {
         eprintln!("[C18] SELFTEST: reference optima deliberately lowered — violations are expected");
     }
     rep.rule("graphs: DFS over edge sequences (ordered spaces) or edge multisets (others) of labelled edges (from,to incl. self-loops; type A|B; weight 0|1|absent|5.0; directed|undirected) on n fixed nodes, built in the real GraphEngine; per graph every query of the grid (all start/end pairs x filters x directions x hop ranges x admissible heuristics) is compared with brute force; non-trivial = the reference answer is a path of >=2 hops / a set of >=2 paths / a structure with >=2 classes");
+    rep.rule("M (spanning trees): every sequence of <= m undirected edges over distinct node pairs of 6 (thorough also 7) nodes, the i-th edge weighing i — i.e. every edge set with every assignment of the distinct weights 1..m, hence every order in which Kruskal can meet the edges — each edge in both storage orientations; node names canonical by first appearance, run under an ascending and a descending name->id map");
+    rep.assume("M: minimum_spanning_tree does not depend on node ids beyond the two name->id maps tried (ascending/descending by first appearance in weight order)");
     rep.assume("filter predicate evaluation (TraversalFilter::matches_edge/matches_node) is trusted: the reference asks the engine's predicate which edges/nodes pass");
     rep.assume("an engine whose edges were deleted again behaves like a fresh one (every kept counterexample is re-confirmed on a fresh engine)");
     rep.assume("node filters exempt start and end node (as documented in the code); traverse with a node filter may either hide or block rejected nodes");
@@ -2099,6 +2240,25 @@ fn main() {
             total.merge(a);
         }
     }
+    // M: spanning trees on 6 (7) nodes, every Kruskal processing order
+    {
+        let fam: Vec<(usize, usize, usize)> = if thorough { vec![(6, 6, 4), (7, 6, 4)] } else { vec![(6, 5, 3), (7, 5, 3)] };
+        for (n, m, depth) in fam {
+            for desc in [false, true] {
+                let name = format!("M/n={n} <={m} distinct-weight undirected edges, ids {}", if desc { "descending" } else { "ascending" });
+                if !want(&name) {
+                    continue;
+                }
+                let t = std::time::Instant::now();
+                let a = run_mst_family(n, m, desc, depth);
+                let g = a.c.get("graphs").copied().unwrap_or(0);
+                graphs_total += g;
+                eprintln!("[C18] {name:<28} graphs={g:<8} {:.1}s", t.elapsed().as_secs_f64());
+                rep.part(&name, json!({"nodes": n, "max_edges": m, "graphs": g, "counters": a.c, "violating_queries_by_signature": a.sig_cases}));
+                total.merge(a);
+            }
+        }
+    }
     // D: zero-weight closed walks, in subprocesses
     if want("D/") {
         let t = std::time::Instant::now();
@@ -2125,6 +2285,7 @@ fn main() {
                 let pt = match part {
                     "W" => Part::W,
                     "S" => Part::S,
+                    "M" => Part::M,
                     _ => Part::U,
                 };
                 match confirm_fresh(sig, pt, n, &ls, &params(pt, n, thorough, true, false)) {
